@@ -23,8 +23,12 @@ pr = ck.prove() if translator_error is None else None
 # ---------------------------------------------------------------- harness build (four parts in parallel)
 builds = {}
 PARTS = (1, 2, 4, 8)          # harness compiled in four parts: reps 0,1 / 2,6 / 3,4 / 5
+tsan_build = [None, ""]
 def _build(part):
     builds[part] = ck.build_cpp("c03_harness_%d" % part, ["harness/C03/sort_harness.cpp"], extra=["-DC03_PART=%d" % part])
+    if part == 2:        # the shortest of the four jobs also builds the ThreadSanitizer variant of the C-string part (~15 s)
+        tsan_build[0], tsan_build[1] = ck.build_cpp("c03_harness_tsan", ["harness/C03/sort_harness.cpp"], extra=["-DC03_PART=1"],
+                                                    flags=["-std=c++17", "-O1", "-g", "-fsanitize=thread"])
 ths = [threading.Thread(target=_build, args=(p,)) for p in PARTS]
 for t in ths: t.start()
 drv, dlog = ck.ocaml_driver("C03")
@@ -357,6 +361,98 @@ else:
             if i < len(cases) and res[i] is not None and len(cases[i]) < 1500:
                 samples.append({"case": cases[i], "implementation": impl[i], "verdict": res[i]})
 
+# ---------------------------------------------------------------- concurrency stage
+# Independent collections sorted at the same time by real threads (each with its own strings and lcp array): every call must
+# still meet the property -- catches function-local static / global scratch state in the sorters.
+#  * big: pairs of >= 65536-string collections of the same string-set type through every entry point that builds a 64Ki-entry
+#    table (radixsort_CE3, radixsort_CI3, the front ends selecting them), 2 threads that meet again right before the sort call;
+#    judged by the checker
+#  * small: the first generated small cases of every harness part re-run 4 at a time; must equal the single-threaded lines
+#  * the C-string part once more under ThreadSanitizer (big pairs of reps 0/1 + 60 small cases, 2 threads)
+conc = {"big_cases": 0, "small_cases": 0, "threads": [2, 4], "tsan": "not run"}
+if translator_error is None and all(builds[p][0] for p in PARTS) and drv is not None and not ck.replay and all(r is not None for r in res):
+    cbig = []
+    for (n_, kind, algo, rep_, mem) in ((66000, "abc", 3, 0, 0), (66000, "groups0", 5, 0, 0), (66000, "full", 0, 0, 0),
+                                        (66000, "abc", 0, 2, 0), (70000, "groups0", 0, 2, 2000000)):
+        pair = [gen_big(n_, kind, algo, rep_, 1, mem) for _ in range(2)]
+        for _round in range(1):
+            for c, m in pair: cbig.append((c, m))
+    conc["big_cases"] = len(cbig)
+    def conc_run(part, lines, k, exe=None, env=None, ulim=True):
+        f = os.path.join(ck.scratch, "conc_%d_%d.txt" % (part, k))
+        with open(f, "w") as fh: fh.write("\n".join(lines) + "\n")
+        cmd = (["sh", "-c", ULIM, "sh"] if ulim else []) + [exe or builds[part][0], f, str(k)]
+        return verif.sh(cmd, timeout=3000, env=env or dict(os.environ, ASAN_OPTIONS="detect_leaks=1"))
+    def part_of(c): r = c.split(" ", 2)[1]; return 1 if r in "01" else 2 if r in "26" else 4 if r in "34" else 8
+    conc_fail = None
+    # big pairs
+    big_out = []
+    for part in (1, 2):
+        sel = [c for c, m in cbig if part_of(c) == part]
+        if not sel: continue
+        rc, o = conc_run(part, sel, 2)
+        lines = [l for l in o.splitlines() if l.startswith("ids:") or l.startswith("APIFAIL:")]
+        if rc != 0 or len(lines) != len(sel):
+            key = [l for l in o.splitlines() if "ERROR: AddressSanitizer" in l or "runtime error" in l][:1]
+            conc_fail = ("sorters crash when two threads sort independent collections of >= 65536 strings at the same time (%s): %s"
+                         % (", ".join(sorted(set("%s on %s" % (ALGON[m[0]], REPNAMES[m[1]]) for c, m in cbig if part_of(c) == part))), key[0][:160] if key else "rc=%d" % rc),
+                         {"cases_run_concurrently_in_pairs": [c[:300] + " ..." for c in sel[:4]], "threads": 2, "log_tail": o[-2500:]})
+            break
+        big_out += list(zip(sel, lines))
+    if conc_fail is None and big_out:
+        cf = os.path.join(ck.scratch, "conc_cases.txt"); of = os.path.join(ck.scratch, "conc_impl.txt")
+        halves = [big_out[0::2], big_out[1::2]]; vout = {}
+        def conc_check(j):
+            a = cf + str(j); b = of + str(j)
+            with open(a, "w") as x, open(b, "w") as y:
+                for c, l in halves[j]: x.write(c + "\n"); y.write(l + "\n")
+            vout[j] = verif.sh(["sh", "-c", ULIM, "sh", drv, a, b, "-1"], timeout=3000)
+        ths = [threading.Thread(target=conc_check, args=(j,)) for j in (0, 1)]
+        for t_ in ths: t_.start()
+        for t_ in ths: t_.join()
+        for j in (0, 1):
+            vl = [l for l in vout[j][1].splitlines() if l.startswith("chk=")]
+            for (c, l), v in zip(halves[j], vl):
+                if not v.startswith("chk=1"):
+                    f_ = c.split(" ", 7)
+                    conc_fail = ("%s on %s, n=%s, memory=%s: result of a call is not a sorted permutation with exact LCPs when another thread sorts an independent collection at the same time"
+                                 % (ALGON[int(f_[0])], REPNAMES[int(f_[1])], f_[6], f_[4]), {"case_prefix": c[:400] + " ...", "threads": 2, "verdict": v})
+                    break
+            if len(vl) != len(halves[j]) and conc_fail is None:
+                conc_fail = ("checker driver failed on the concurrency stage", {"log_tail": vout[j][1][-1500:]})
+    # small batch: 4 threads, must reproduce the single-threaded result lines
+    if conc_fail is None:
+        for part in PARTS:
+            sel = [i for i in parts[part] if ncorpus <= i and len(cases[i]) < 20000][:90]
+            if not sel: continue
+            conc["small_cases"] += len(sel)
+            rc, o = conc_run(part, [cases[i] for i in sel], 4)
+            lines = [l for l in o.splitlines() if l.startswith("ids:") or l.startswith("APIFAIL:")]
+            if rc != 0 or len(lines) != len(sel):
+                conc_fail = ("sorters crash when four threads sort independent small collections at the same time (harness part %d)" % part, {"log_tail": o[-2500:], "threads": 4}); break
+            bad = [i for i, l in zip(sel, lines) if l != impl[i]]
+            if bad:
+                i = bad[0]
+                conc_fail = ("%s on %s: result differs from the single-threaded result when other threads sort independent collections at the same time"
+                             % (ALGON[meta[i][0]], REPNAMES[meta[i][1]]), {"case": cases[i], "threads": 4, "single_threaded": impl[i][:1500]}); break
+    # ThreadSanitizer build of the C-string part: a shared scratch table is a reported race even when results are right
+    if conc_fail is None:
+        texe, tlog = tsan_build
+        if texe is None:
+            conc["tsan"] = "build failed: " + tlog[-300:]
+        else:
+            sel = [c for c, m in cbig if part_of(c) == 1][:6] + [cases[i] for i in parts[1] if ncorpus <= i and len(cases[i]) < 20000][:60]
+            rc, o = conc_run(1, sel, 2, exe=texe, env=dict(os.environ, TSAN_OPTIONS="halt_on_error=1 exitcode=66"), ulim=False)
+            conc["tsan"] = "ran %d cases, rc=%d" % (len(sel), rc)
+            if rc != 0:
+                key = [l for l in o.splitlines() if "ThreadSanitizer" in l][:1]
+                conc_fail = ("data race between two threads sorting independent collections: " + (key[0][:200] if key else "rc=%d" % rc), {"log_tail": o[-3000:], "threads": 2})
+    if conc_fail is not None:
+        found = True
+        ck.violation("concurrency stage: " + conc_fail[0], dict(conc_fail[1], stage="independent collections sorted by concurrent threads",
+                                                               replay_cmd="bin/check C03 (the stage is regenerated from VERIF_SEED)"))
+tick('concurrency_done')
+
 if translator_error is not None and not found:
     ck.violation("translator could not re-derive the sizeof/threshold constants from /repo: " + translator_error[:300],
                  {"theorem_or_correspondence": "translate/sizes_c03.py", "detail": translator_error[-2000:]}, no_input=True)
@@ -425,6 +521,7 @@ ck.finish({
     "samples": samples,
     "input_distribution": stats,
     "agreement": agree,
+    "concurrency_stage": conc,
     "api_surface": api_surface,
     "model_small_n": MODEL_SMALL_N,
     "driver_cpu_s_by_shape": {s: round(sum(float(r.get("t", 0)) for i, r in enumerate(res) if r and meta[i][5] == s), 1) for s in sorted(set(m[5] for m in meta))},
